@@ -268,7 +268,7 @@ def main(argv, pid='C13'):
         harness_name='solvers_ocp', harness_sources=[], harness_builder=lambda: (exe, log),
         gen_ops=gen_ops, monitor=monitor, nontrivial=nontrivial,
         driver_input=L.driver_input, impl_view=L.strip_events,
-        n_quick=250, n_thorough=3000, extra_stage=probes,
+        n_quick=250, n_thorough=10000, extra_stage=probes,
         trusted_base=[
             'Lean 4.33 kernel + Mathlib (axioms: propext, Classical.choice, Quot.sound)',
             'translators gen_c05/gen_c06 (ocp_fbe, ocp_qubViolated, ocp_linesearchViolated, statusChainOcp, '
